@@ -557,6 +557,26 @@ def impl_e2o(mode, tname, cc, enc, data):
         return ["B crash"]
 
 
+def impl_e2os(mode, data):
+    """events_to_objs over the events a stream decode yields (also the partial list of a decode that raises):
+       one `O <obj>` line per object the generator yields, `O crash` if it raises"""
+    from tpmstream.common.object import events_to_objs
+    from tpmstream.spec.commands import CommandResponseStream
+    evs = []
+    try:
+        for e in Binary.marshal(tpm_type=CommandResponseStream, buffer=bytes(data), abort_on_error=(mode == "S")):
+            evs.append(e)
+    except Exception:  # noqa
+        pass
+    out = []
+    try:
+        for o in events_to_objs(evs):
+            out.append(f"O {obj_str(o)}")
+    except Exception:  # noqa
+        out.append("O crash")
+    return out
+
+
 def impl_objects(mode, tname, cc, enc, data):
     """decoder object, events_to_obj(events), obj_to_events of both, re-encoding — canonical lines:
        D <obj>   the decoder's object          B <obj>   object rebuilt from the events
